@@ -33,6 +33,23 @@ theorem gen_sarkka_forms_reviewed :
     FV.Gen.C10.finalRename = "result(**{name: _shift_name(name, -period + 1) for name in result.inputs})" :=
   ⟨rfl, rfl, rfl, rfl, rfl, rfl, rfl⟩
 
+/-- MarkovProduct.eager_subs (sum_product.py:1021-1038): the split of `subs` into renames and other values, the
+    SIMULTANEITY GUARD `any(name in dict(lazy) for name in rename.values())` → `return None` (added by fix 49bc2e2;
+    seeded defect C10_9 iterates the rename KEYS instead, so the guard never fires) and the new step_names.
+    This is the source form of the name-level decision modelled and proved in C04:
+    `FV.C04.mpDecide` (Model/C04/Classes2.lean: `renames.isEmpty || renames.any (fun x => lazy.contains x)` → none,
+    else `stepNames.map (k, rename.get(v, v))` + the remaining lazy keys) with
+    `FV.Props.C04.mpDecide_none_iff` / `mpDecide_some_spec` (Props/C04/Classes3.lean: it declines exactly when
+    renaming first would not be simultaneous, and otherwise denotes the simultaneous substitution).  Not duplicated
+    here; this obligation only pins that the code still has the reviewed form, from C10's side. -/
+theorem gen_markov_eager_subs_reviewed :
+    FV.Gen.C10.subsRename = "{k: v.name for k, v in subs if isinstance(v, Variable)}" ∧
+    FV.Gen.C10.subsLazy = "tuple(((k, v) for k, v in subs if not isinstance(v, Variable)))" ∧
+    FV.Gen.C10.subsGuard = "any((name in dict(lazy) for name in rename.values()))" ∧
+    FV.Gen.C10.subsGuardBody = "return None" ∧
+    FV.Gen.C10.subsStepNames = "frozenset(((k, rename.get(v, v)) for k, v in self.step_names.items()))" :=
+  ⟨rfl, rfl, rfl, rfl, rfl⟩
+
 /-- block_step with an arbitrary bound on the shift of the paired names -/
 def blockStepBounded (bound p : Nat) (shifts : List Nat) : List (Nat × Nat) :=
   ((shifts.filter (· < bound)).eraseDups).map fun s => (s + p, s)
